@@ -111,6 +111,9 @@ func runSolver(ctx context.Context, sp solverSpec, file string, timeoutMs int) (
 
 // solveOne discharges one obligation: z3-new first (short), then a race of all three.
 func solveOne(c *Ctx, ob *Obligation, entryFacts []*Term, dir string, idx int, timeoutMs int) {
+	if ob.Solver == "syntactic" {
+		return
+	}
 	q := c.Query(ob, entryFacts)
 	ob.Query = filepath.Join(dir, fmt.Sprintf("q%05d.smt2", idx))
 	if err := os.WriteFile(ob.Query, []byte(q), 0o644); err != nil {
